@@ -97,8 +97,11 @@ def gen_cases(chk):
             desc += ":%s" % f
         elif m == "wrap64":
             # ten bytes whose top bits overflow 64 bits and wrap to a small value
-            f = r.choice(["count", "comp_type", "chunk_hash_type", "sig_count", "flags"])
-            base = {"flags": 0, "comp_type": 2, "chunk_hash_type": cht, "count": nch, "sig_count": 0}[f]
+            f = r.choice(["count", "comp_type", "chunk_hash_type", "sig_count", "flags", "lead_hash_field", "lead_hash_field", "header_size", "header_size"])
+            if f == "header_size":
+                base = zckref.parse(zckref.build(**kw)).header_size    # the value the lead would carry anyway, in ten bytes with overflow bits on top
+            else:
+                base = {"flags": 0, "comp_type": 2, "chunk_hash_type": cht, "count": nch, "sig_count": 0, "lead_hash_field": ht}[f]
             enc = bytearray(ci_encode(base, pad=10 - len(ci_encode(base))))
             enc[-1] = 0x80 | r.choice([2, 4, 0x40, 0x7e])
             kw[f] = Raw(bytes(enc))
@@ -127,7 +130,8 @@ def gen_cases(chk):
             desc += ":%d" % kw["flags"]
         elif m == "types":
             f = r.choice(["comp_type", "chunk_hash_type", "lead_hash_field"])
-            kw[f] = r.choice([1, 3, 4, 5, 100] if f == "comp_type" else [4, 5, 100])
+            # (incl. values that equal a known type modulo 2^8 / 2^16)
+            kw[f] = r.choice([1, 3, 4, 5, 100, 256, 258, 770, 65536, 65538, 512] if f == "comp_type" else [4, 5, 100, 256 + cht, 257, 65536 + cht, 259])
             desc += ":%s=%d" % (f, kw[f])
         elif m == "index_size":
             real = len(zckref.build(**_min_index(kw)))  # not used, just keeps generator honest
